@@ -1745,8 +1745,12 @@ def check_case(case, res, ctx, tag, lean_jobs):
     late_hosts = sum(1 for h in case["hosts"] if h["up"] > 0)
     sig = (len(case["hosts"]), len(case["svcs"]), case["types"], len(obs["browsers"]), late_hosts > 0, obs["dropped"] is not None,
            case["net"]["mode"], case["net"]["dups"], "close" in kinds, "upd" in kinds, "unreg" in kinds, "rem" in kinds,
-           len(obs["regfail"]) > 0)
+           len(obs["regfail"]) > 0, case.get("stack", "4") + ("L" if case.get("listen") else ""),
+           any(sv.get("case") for sv in case["svcs"]) or any(b.get("tcase") for b in obs["browsers"]),
+           any(isinstance(o[3], list) and len(o[3]) > 1 for o in case["ops"] if o[1] == "browse"),
+           _has_train(obs))
     res.nontriv(json.dumps(sig))
+    res.count("stack=" + sig[13])
     res.count("hosts=%d" % len(case["hosts"]))
     res.count("dropped" if obs["dropped"] is not None else "no-drop")
     res.count("lookups", len(obs["lookups"]))
@@ -1763,7 +1767,15 @@ def check_case(case, res, ctx, tag, lean_jobs):
 def lean_compare(res, lean_jobs):
     lines = [lean_line(tr, endT) for (_, tr, endT, _, _) in lean_jobs]
     try:
-        outs = C.run_driver(lines)
+        # the driver is a pure line-by-line function: four processes on interleaved quarters of the lines (about 0.03 s per trace)
+        from concurrent.futures import ThreadPoolExecutor
+
+        k = 4 if len(lines) >= 40 else 1
+        with ThreadPoolExecutor(k) as ex:
+            parts = list(ex.map(C.run_driver, [lines[j::k] for j in range(k)]))
+        outs = [None] * len(lines)
+        for j, part in enumerate(parts):
+            outs[j::k] = part
     except C.DriverUnavailable as ex:
         res.notes.append("driver unavailable: %s" % ex)
         return
@@ -1807,12 +1819,13 @@ def run_inner(ctx):
     n_sweep = 0 if not thorough else max(1, n_scen // 10)  # scenarios whose every delivery / datagram is dropped in turn
     drops_per = 6 if not thorough else 20
     dgram_per = 4 if not thorough else 10
-    # the theorem is about the Lean monitors: thorough runs EVERY trace through them; quick (budget) a uniform sample of the runs
-    # plus all corpus cases and every run on which a Python monitor, the conclusion or the oracle failed
-    lean_frac = 1.0 if thorough else 0.3
+    # the theorem is about the Lean monitors: both tiers run EVERY trace through them (second review, point 7; measured: 1 300 quick
+    # traces cost about 40 s of zcdriver, 12-15 s on four processes).  Only the widened search (three times the scenarios, entered when
+    # the tree already failed T or P or drifted) samples: 30 % + all corpus cases + every run on which anything failed
+    lean_frac = float(os.environ.get("VERIF_C07_LEAN_FRAC", "1.0"))
     if ctx.get("widened"):
         n_scen *= 3
-        lean_frac = min(lean_frac, 0.15)
+        lean_frac = min(lean_frac, 0.3)
     lean_jobs = []
     counts = {"runs": 0, "sampled": 0, "failed": 0}
 
@@ -1873,19 +1886,35 @@ def run_inner(ctx):
     res.count("traces-evaluated-by-lean-monitors", len(lean_jobs))
     res.notes.append("Lean monitors (zcdriver c07) evaluated on %d of %d traces (%s: %s); the Python monitors and the oracle on all %d"
                      % (len(lean_jobs), counts["runs"], tier,
-                        "every trace" if lean_frac >= 1.0 else "uniform sample p=%.2f + all corpus cases + every run with a failed monitor/conclusion/oracle; "
-                        "the rest is skipped for the quick budget (about 0.03 s per trace)" % lean_frac, counts["runs"]))
+                        "every trace" if lean_frac >= 1.0 else "widened search: uniform sample p=%.2f + all corpus cases + every run with a failed "
+                        "monitor/conclusion/oracle" % lean_frac, counts["runs"]))
     if ctx.get("driver_ok"):
         lean_compare(res, lean_jobs)
     res.rule = ("random scenarios (2-5 hosts, up to 30% started late; 1-6 services of 1-3 types, IPv4 / IPv6-only / dual, default and non-default "
-                "TTLs, with register / update / unregister / re-register at boundary-biased gaps; 1-4 browsers before/during/after; optional close; "
-                "long-horizon families up to 2.5 h) x delivery schedules (0..100 ms uniform / extremes / mixed, duplication none/some/many) x the "
+                "TTLs, with register / update / unregister / re-register at boundary-biased gaps; 1-4 browsers before/during/after, 30% of them one "
+                "browser object for several types; types / instance labels / host names in mixed case; optional close; hosts with one IPv4 socket, one "
+                "IPv6 socket (4-tuple deliveries, ff02::fb), both, or a dedicated listen socket; families: long horizons up to 2.5 h, "
+                "unregister-then-close, vocabulary (late host, multi-type browser, mixed case), multi-packet (2-6 services with 300-900 byte TXT or "
+                "21-32 services of one type on one host: answers and the close's goodbye are trains of packets)) x delivery schedules (0..100 ms uniform / extremes / mixed, duplication none/some/many) x the "
                 "loss of one datagram: one of its deliveries (sampled, biased to PTR-carrying datagrams) or the whole datagram (every receiver, "
                 "with or without the sender's loop-back); both swept exhaustively for the first tenth of the thorough scenarios; every run is "
                 "observed at lastChange+16 s (the proven bound), +16.001 s, +30 s and then periodically; oracle and Python contract monitors on every "
-                "run, compiled Lean monitors on every run (thorough) or a uniform 30% sample plus corpus plus all failures (quick); "
-                "non-trivial = distinct (hosts, services, types, browsers, late host, drop, delay mode, dups, close, update, unregister, Removed seen, refused registration)")
+                "run, compiled Lean monitors on every run (both tiers; a 30% sample plus corpus plus all failures only in the widened search); "
+                "non-trivial = distinct (hosts, services, types, browsers, late host, drop, delay mode, dups, close, update, unregister, Removed seen, refused "
+                "registration, socket topology, mixed case, multi-type browser, multi-packet message)")
     return res
+
+
+def _has_train(obs):
+    """did some host put two response datagrams with PTR items on the link at one instant for one destination (a split message)?"""
+    seen = set()
+    for e in obs["trace"]:
+        if e[1] == "send" and any(it[0] == "p" for it in e[5]):
+            k = (e[0], e[2], e[4], obs["datagrams"][e[3]][2])
+            if k in seen:
+                return True
+            seen.add(k)
+    return False
 
 
 def _items_of(obs, d):
